@@ -759,11 +759,15 @@ class ProgGen:
     rng = self.rng
     ar = self.arr_regs()
     refs = self.regs(lambda v: isinstance(v, dict) and 'r' in v) if allow_refs else []
+    if allow_refs == 'vars':  # cached_partial: returned Variables are the caller's own, returned graph nodes are clones
+      refs = self.var_regs()
     ret = []
     if ar:
       ret.append(rng.choice(ar))
-    if refs and rng.random() < 0.45:
+    if refs and rng.random() < (0.7 if allow_refs == 'vars' else 0.45):
       ret.append(rng.choice(refs))
+      if allow_refs == 'vars' and rng.random() < 0.4:
+        ret.append(rng.choice(refs))
     if not ret:
       self.emit({'op': 'data', 'e': {'c': 7}})
       ret.append(len(self.env) - 1)
@@ -1083,6 +1087,81 @@ def dict_roundtrip_oracle(ctx, case):
     ctx.violation('split-merge-dict-attribute', f'split / merge / update raised {type(e).__name__} on a module holding a plain dict', where)
 
 
+def gen_cp_shared_case(rng):
+  """cached_partial on an argument with INTRA-argument sharing (tied Variables, the same Variable twice in a list, a
+  shared sub-node) followed by further Variables / sub-nodes in traversal order; the body updates values and RETURNS
+  Variables of the cached argument (they are the caller's own objects); optional extra graph arguments alias objects
+  inside the cached one; repeated calls after in-place edits"""
+  vt = VT_MRO[rng.choice(VT_NAMES)]
+  vals = rng.sample(range(1, 40), 5)
+  heap = [{'cls': 'A', 'attrs': []}, {'cls': 'B', 'attrs': [['w', {'r': 3}]]},
+          {'vt': vt, 'val': vals[0], 'md': []}, {'vt': vt, 'val': vals[1], 'md': []},
+          {'vt': vt, 'val': vals[2], 'md': []}, {'vt': vt, 'val': vals[3], 'md': []}]
+  a0 = heap[0]['attrs']
+  share = rng.choice(['tied', 'tied', 'list', 'subnode', 'all'])
+  if share in ('tied', 'all'):
+    a0 += [['emb', {'r': 2}], ['head', {'r': 2}]]
+  if share in ('list', 'all'):
+    a0 += [['items', {'l': [{'r': 2}, {'r': 2}]}]]
+  if share in ('subnode', 'all'):
+    a0 += [['c1', {'r': 1}], ['c2', {'r': 1}]]
+  if share == 'list':
+    a0 += [['emb', {'r': 2}]]
+  # registered AFTER the duplicate in traversal order (sorted attribute names)
+  a0 += [['scale', {'r': 4}], ['zsub', {'r': len(heap)}]]
+  heap.append({'cls': 'C', 'attrs': [['w', {'r': 5}], ['t', {'r': 2}]]})
+  zsub = len(heap) - 1
+  heap.append({'cls': 'O', 'attrs': [['v', {'r': rng.choice([2, 4, 5])}]]})  # a holder (not part of the cached argument)
+  holder = len(heap) - 1
+  rng.shuffle(a0)
+  args = [{'r': 0}]
+  nc = 1
+  r = rng.random()
+  if r < 0.3:
+    args.append({'a': rng.randrange(1, 6)})
+  elif r < 0.75:
+    # an extra graph NODE at every call: a holder of one of the cached argument's Variables, or one of its sub-nodes
+    args.append({'r': rng.choice([holder, holder, 1, zsub])})
+    if rng.random() < 0.4:
+      args.append({'a': rng.randrange(1, 6)})
+  g = ProgGen(rng, heap, args)
+  names = [k for k, v in a0 if isinstance(v, dict) and 'r' in v]
+  for nm in rng.sample(names, min(len(names), rng.choice([2, 3]))):
+    g.emit({'op': 'getAttr', 'r': 0, 'k': nm})
+  for _ in range(rng.randrange(1, 4)):
+    g.value_op() or g.explore()
+  vr = g.var_regs()
+  ret = []
+  for nm in rng.sample(['scale', 'emb', 'head'], rng.choice([1, 2])):
+    if any(k == nm for k, _ in a0):
+      g.emit({'op': 'getAttr', 'r': 0, 'k': nm})
+      ret.append(len(g.env) - 1)
+  if not ret and vr:
+    ret.append(rng.choice(vr))
+  if rng.random() < 0.6 or not ret:
+    g.emit({'op': 'data', 'e': g.expr(1)})
+    ret.insert(rng.randrange(len(ret) + 1), len(g.env) - 1)
+  spec = {'kind': 'cached_partial', 'fn': g.fn(ret), 'ncached': nc}
+  steps = []
+  h = copy.deepcopy(heap)
+  for c in range(rng.choice([1, 2, 3])):
+    steps.append({'call': args})
+    try:
+      abs_call(spec, h, args, 0, 0)
+    except Exception:
+      break
+    ed, _ = gen_edit(rng, h, args, structural=False)
+    if ed is not None and rng.random() < 0.7:
+      try:
+        abs_run(ed, h, args)
+        steps.append({'edit': {'fn': ed, 'args': args}})
+      except Exception:
+        pass
+  while steps and 'edit' in steps[-1]:
+    steps.pop()
+  return {'kind': 'history', 'G': {'heap': heap}, 'spec': spec, 'steps': steps, 'cpshared': True, 'aliased': len(args) > 1 and 'r' in args[1]}
+
+
 def gen_dict_case(rng):
   case = gen_case(rng, kind=rng.choice(['cond', 'switch', 'remat', 'fori', 'while', 'jit', 'remat', 'cond']), G=gen_dict_graph(rng))
   case['dictcase'] = True
@@ -1098,6 +1177,8 @@ def gen_case(rng, kind=None, G=None):
     return gen_falsy_case(rng)
   if kind is None and rng.random() < 0.1:
     return gen_dict_case(rng)
+  if kind is None and rng.random() < 0.08:
+    return gen_cp_shared_case(rng)
   G = G or gen_graph(rng)
   heap = G['heap']
   kind = kind or rng.choices(['jit', 'remat', 'cond', 'switch', 'fori', 'while', 'cached_partial'], [38, 12, 10, 8, 12, 8, 12])[0]
@@ -1117,9 +1198,21 @@ def gen_case(rng, kind=None, G=None):
       seen = set()
       args = [a for a in args if not (a['r'] in seen or seen.add(a['r']))]
     nc = len(args)
+    extra_graph = False
     if rng.random() < 0.45:  # cached_partial(f, *nodes)(x[, y]): arrays passed at every call
       args = args + [{'a': rng.randrange(0, 10)} for _ in range(rng.choice([1, 1, 2]))]
-    fn, g = gen_fn(rng, heap, args, rng.randrange(1, 7), structural=rng.random() < 0.12, allow_refs=False, p_bad=0.02)
+    if rng.random() < 0.4:  # extra graph arguments at every call, most of them aliasing objects inside the cached ones
+      # graph NODES only: a bare Variable that is not inside a cached argument, passed next to cached arguments, hits
+      # `assert isinstance(graphdef, NodeDef)` in MergeContext.unflatten (probe `cached-partial-bare-variable-extra-arg`,
+      # same root cause as F29); Variables inside the cached argument are reached through holder nodes instead
+      nodes_all = [i for i, o in enumerate(heap) if 'cls' in o]
+      inside = [a for c in args[:nc] for a in reach_from(heap, c['r'])[1:] if a in nodes_all]
+      for _ in range(rng.choice([1, 1, 2])):
+        args = args + [{'r': rng.choice(inside) if inside and rng.random() < 0.75 else rng.choice(nodes_all)}]
+      extra_graph = True
+    # with extra graph arguments the body only updates values: the function sees CLONES of the cached nodes next to the
+    # caller's original extra arguments, so a structural edit would (legitimately) act on two different objects
+    fn, g = gen_fn(rng, heap, args, rng.randrange(1, 7), structural=(not extra_graph) and rng.random() < 0.12, allow_refs='vars', p_bad=0.02)
     spec = {'kind': kind, 'fn': fn, 'ncached': nc}
   elif kind in ('cond', 'switch'):
     args, aliased = gen_args(rng, G)
@@ -1315,7 +1408,7 @@ def check_cases(ctx, drv, cases, stream):
     ctx.count('transform', kind)
     ctx.count('calls_per_history', n_calls)
     ctx.count('aliased_args', bool(case.get('aliased')))
-    ctx.count('stream', stream + ('-twin' if case.get('twin') else '') + ('-falsy' if case.get('falsy') else '') + ('-moved' if case.get('moved') else '') + ('-dict' if case.get('dictcase') else ''))
+    ctx.count('stream', stream + ('-twin' if case.get('twin') else '') + ('-falsy' if case.get('falsy') else '') + ('-moved' if case.get('moved') else '') + ('-dict' if case.get('dictcase') else '') + ('-cpshared' if case.get('cpshared') else ''))
     if case.get('dictcase'):
       dict_roundtrip_oracle(ctx, case)
     for o in set(ops):
@@ -1437,6 +1530,15 @@ PROBES = [
     {'G': {'heap': [{'vt': VT_MRO['Param'], 'val': 3, 'md': []}]},
      'spec': {'kind': 'cached_partial', 'fn': {'body': [{'op': 'readVar', 'r': 0}, {'op': 'setVar', 'r': 0, 'e': {'add': [{'r': 1}, {'c': 1}]}}], 'ret': [1]}},
      'steps': [{'call': [{'r': 0}]}]},
+  ),
+  (
+    'cached-partial-bare-variable-extra-arg',
+    'nnx.cached_partial(f, m)(v) with a bare nnx.Variable that is NOT part of a cached argument passed at call time raises '
+    'AssertionError (MergeContext.unflatten: `assert isinstance(graphdef, NodeDef)` on the static-cache path; a Variable inside a '
+    'cached argument comes back as a NodeRef and works); eagerly and under nnx.jit the call works',
+    {'G': {'heap': [{'cls': 'A', 'attrs': [['w', {'r': 1}]]}, {'vt': VT_MRO['Param'], 'val': 3, 'md': []}, {'vt': VT_MRO['Param'], 'val': 5, 'md': []}]},
+     'spec': {'kind': 'cached_partial', 'ncached': 1, 'fn': {'body': [{'op': 'readVar', 'r': 1}, {'op': 'setVar', 'r': 1, 'e': {'add': [{'r': 2}, {'c': 1}]}}], 'ret': [2]}},
+     'steps': [{'call': [{'r': 0}, {'r': 2}]}]},
   ),
   (
     'cached-partial-array-attribute',
